@@ -9,70 +9,7 @@ const RT = require('./lib/rt_record')
 const T = require('./lib/tmplmodel')
 const G = require('./lib/tmplgen')
 
-const MAIN = 'd/m'
-const SLOT_INSTANCES = () => [{ u: 'SV1', uV: 'SV2' }, { u: 0, uV: undefined }]
-
-function buildJob(cs, syntax, id) {
-  const files = [[MAIN, T.print(cs.main, syntax).text]]
-  for (const p of Object.keys(cs.files)) files.push([p, T.print(cs.files[p], syntax).text])
-  const scripts = Object.keys(cs.scripts).map((p) => [p, cs.scripts[p]])
-  return { id, files, scripts, want: ['groups'] }
-}
-
-function modelFiles(cs) {
-  const files = { [MAIN]: cs.main }
-  for (const p of Object.keys(cs.files)) files[p] = cs.files[p]
-  return files
-}
-
-function firstDiff(exp, act) {
-  // a short description of where two trees differ
-  const se = T.showTree(exp); const sa = T.showTree(act)
-  let i = 0
-  while (i < se.length && i < sa.length && se[i] === sa[i]) i++
-  return `expected …${se.slice(Math.max(0, i - 40), i + 80)}… got …${sa.slice(Math.max(0, i - 40), i + 80)}…`
-}
-
-function checkCase(cs, syntax, res, envs, rep, variantName) {
-  const src = res.__src
-  rep.transitions += 1
-  if (res.panic) { rep.machineryErrors.push(`compiler panicked on ${cs.name}: ${JSON.stringify(res.panic)}`); return }
-  const diags = []
-  for (const p of Object.keys(res.diags)) for (const d of res.diags[p]) if (d.level >= 2) diags.push(`${p}: ${d.kind}`)
-  if (diags.length) {
-    // a well-formed template must be clean (C15's business) — nothing can be said about its rendering when the parser recovered
-    rep.violation(`C04|diagnostic-on-well-formed:${diags[0].split(': ')[1]}|${cs.name.replace(/\(.*/, '')}`, `the well-formed template ${JSON.stringify(src)} (${cs.name}) produces ${diags.join('; ')}`, { engine: 'c04', case: cs.name, syntax, kind: 'diagnostic' })
-    return
-  }
-  let Gs
-  try { Gs = RT.loadGroups(res.outputs.groups.ok, false) } catch (e) {
-    rep.violation(`C04|generated-code-does-not-load|${String(e).slice(0, 40)}`, `the bundle of ${JSON.stringify(src)} does not load: ${e}`, { engine: 'c04', case: cs.name, syntax, kind: 'load' })
-    return
-  }
-  const files = modelFiles(cs)
-  rep.states += 1
-  let failed = 0
-  for (const data of envs) {
-    rep.evaluations += 1
-    let exp, act, err
-    try {
-      exp = T.sortAttrs(T.render(files, Object.assign({}, cs.scripts), MAIN, data, { slotValues: SLOT_INSTANCES }))
-    } catch (e) { rep.machineryErrors.push(`reference renderer failed on ${cs.name}: ${e && e.stack}`); return }
-    try {
-      act = T.sortAttrs(T.normActual(RT.flatten(RT.render(Gs, MAIN, data, { slotValues: SLOT_INSTANCES }).nodes, true)))
-    } catch (e) { err = e }
-    if (err || !T.sameTree(exp, act)) {
-      failed += 1
-      if (failed === 1) {
-        const what = err ? `throws ${err}` : firstDiff(exp, act)
-        rep.violation(`C04|${cs.name}${variantName ? '|syntax:' + variantName : ''}`, `template ${JSON.stringify(src)} (${cs.name}) with data ${T.showValue(data)}: ${what}`, { engine: 'c04', case: cs.name, syntax, data: JSON.stringify(data, (k, v) => (v === undefined ? '__undefined__' : v)) })
-      }
-    }
-  }
-  rep.outcome([failed > 0, cs.name.replace(/\(.*/, ''), envs.length])
-  if (envs.length > 1) rep.nontrivialCase(cs.name + '|' + (variantName || ''))
-  return failed
-}
+const { MAIN, buildJob, checkCase } = require('./lib/treecheck')
 
 function runShard(info, deep) {
   const rep = new C.Report()
